@@ -86,6 +86,11 @@ def body(ctx):
         spec = dict(seed=ctx.seed + a, maxdata=4096, rid='plus', frag=('whole', 'random')[a % 2], ops=[dict(api='stat', path='/kw', st=st), dict(api='list', path='/kwd', entries=ents, cuts='random')])
         for mode in ('sync', 'async'):
             runs.append((mode, spec, scen.run(spec, mode), None))
+    # a listing that arrives as one WRITE of more than 64 KiB over a transport that keeps transfer boundaries (USB bulk)
+    ents = [[(bytes([65 + j % 26]) * 255).hex(), 33188, j, j] for j in range(300)]
+    spec = dict(seed=ctx.seed + 76, maxdata=4096, rid='plus', frag='whole', boundary='usb', ops=[dict(api='list', path='/wide', entries=ents, cuts='whole')])
+    for mode in ('sync', 'async'):
+        runs.append((mode, spec, scen.run(spec, mode), None))
     # a directory with more than a thousand entries
     ents = [[(b'f%04d' % j).hex(), 33188, j, 1000 + j] for j in range(1500)]
     spec = dict(seed=ctx.seed + 77, maxdata=65536, rid='plus', frag='whole', ops=[dict(api='list', path='/big', entries=ents, cuts='whole')])
